@@ -28,6 +28,10 @@ type Outcome struct {
 	// from the byte-for-byte determinism self-test.
 	TimingDependent bool `json:"timing_dependent,omitempty"`
 	Fingerprint uint64         `json:"fingerprint"`
+	// Observed folds everything the run saw the code under test return (see
+	// Observe). Two executions of one tape must agree on it; an execution that
+	// follows other runs in the same process must agree with a fresh process.
+	Observed uint64 `json:"observed,omitempty"`
 	NonTrivial  bool           `json:"nontrivial"`
 	Faults      map[string]int `json:"faults,omitempty"`
 	Probes      map[string]int `json:"probes,omitempty"`
@@ -56,6 +60,22 @@ func (o *Outcome) Violate(prop, class, sig, format string, args ...any) {
 	if len(o.Violations) < 20 {
 		o.Violations = append(o.Violations, Violation{prop, class, sig, d})
 	}
+}
+
+// Observe folds one observation (a rendered result of the code under test)
+// into the run's Observed hash, order-sensitively.
+func (o *Outcome) Observe(parts ...string) {
+	h := fnv.New64a()
+	var b [8]byte
+	for i := 0; i < 8; i++ {
+		b[i] = byte(o.Observed >> (8 * i))
+	}
+	h.Write(b[:])
+	for _, p := range parts {
+		h.Write([]byte(p))
+		h.Write([]byte{0})
+	}
+	o.Observed = h.Sum64()
 }
 
 func (o *Outcome) HarnessDoubt(format string, args ...any) {
